@@ -18,8 +18,11 @@ pub fn emit_interface_impl(interface: &Interface) -> String {
     let mut implementations = String::new();
 
     // need to have all of the base-class functions, error-codes and const values
+    // only the direct base is named: it already derives from its own ancestors
+    if let Some(base) = interface.iter().nth(1) {
+        base_iface.push_str(&format!("I{} ", &base.ident.to_string()));
+    }
     interface.iter().skip(1).for_each(|iface| {
-        base_iface.push_str(&format!("I{} ", &iface.ident.to_string()));
         iface.nodes.iter().for_each(|node| match node {
             InterfaceNode::Const(c) => {
                 constants.push_str(&format!(
